@@ -373,3 +373,62 @@ Example without_declared_inverse_input_unreachable :
   end.
 Proof. vm_compute. auto. Qed.
 
+
+(* ---------- round 6: the translated set of links in force on the state above (F1 with y = 1 - x and its declared inverse, E2,
+   one registered link z -> y with a declared inverse): the hypotheses of the round-6 theorems are met and say something ---------- *)
+Lemma F1_paired : dinv_paired F1.
+Proof.
+  unfold dinv_paired, F1. simpl. split.
+  - intros i [H|[]]; subst i. exists (mklink 2001 [x1] y1 (mkfn 1 [-1])). simpl. auto.
+  - intros i i' [H|[]] [H'|[]] _. congruence.
+Qed.
+
+Lemma u0_paired : links_paired u0.
+Proof.
+  apply GenClosed.links_paired_init. intros d [H|[H|[]]]; subst d; [exact F1_paired|].
+  unfold dinv_paired, E2. simpl. split; [intros i []|intros i i' []].
+Qed.
+
+Lemma z_to_y_shaped : Forall shaped_op [AddLink z_to_y].
+Proof. constructor; [|constructor]. simpl. intros _. eexists. reflexivity. Qed.
+
+Definition u1 := run u0 [AddLink z_to_y].
+Lemma u1_paired : links_paired u1.
+Proof. exact (Lemmas.links_paired_reachable _ _ u0_paired z_to_y_shaped). Qed.
+
+(* the translated set: 4 links - the internal link x -> y (2001), the registered z -> y (0), then their inverses y -> z (0) and
+   y -> x (2001), the last one being the inverse of a dataset-INTERNAL link; all_links enumerates the same four in another order *)
+Example links_in_force_runs :
+  map (fun l => (l_id l, l_from l, l_to l)) (g_links_in_force (fun s => s) u1)
+    = [(2001, [x1], y1); (0, [z2], y1); (2001, [y1], x1); (0, [y1], z2)] /\
+  map (fun l => (l_id l, l_from l, l_to l)) (all_links u1)
+    = [(2001, [x1], y1); (2001, [y1], x1); (0, [z2], y1); (0, [y1], z2)] /\
+  g_links_in_force (fun s => s) u1 <> all_links u1.
+Proof. vm_compute. repeat split; try reflexivity. discriminate. Qed.
+
+Example links_in_force_same_elements : forall l, In l (g_links_in_force (fun s => s) u1) <-> In l (all_links u1).
+Proof. apply Lemmas.gen_links_in_force_is_all_links; [intros s x; tauto|exact u1_paired]. Qed.
+
+(* the closed update theorem on this state: its hypotheses hold, and what the translated loop installs with the translated set is
+   not trivial - dataset 2 is handed y AND x (x only through the inverse of the internal link), dataset 1 is handed y (its own derived
+   attribute, through the internal link) and z *)
+Example update_closed_applies :
+  exists tabs : list table,
+    g_update (fun s => s) (fuel_for (g_links_in_force (fun s => s) u1)) (g_links_in_force (fun s => s) u1)
+             (map gdata_of (filter d_member (s_data u1))) =
+      Ok ([], map (fun dt => EvSet cid link gdata (gdata_of (fst dt)) (installed (gdata_of (fst dt)) (snd dt)))
+                  (combine (filter d_member (s_data u1)) tabs), tt) /\
+    length tabs = length (filter d_member (s_data u1)) /\
+    Forall2 (fun d t => same_derivations (d_own d) (all_links u1) (d_tbl d) t) (filter d_member (s_data (recompute u1))) tabs.
+Proof.
+  apply Lemmas.gen_update_is_recompute_closed; [intros s x; tauto|exact GenEquiv.iter_id_ok|exact u1_paired|apply le_n].
+Qed.
+
+Example update_closed_runs :
+  match g_update (fun s => s) (fuel_for (g_links_in_force (fun s => s) u1)) (g_links_in_force (fun s => s) u1)
+                 (map gdata_of (filter d_member (s_data u1))) with
+  | Ok (_, [EvSet _ _ _ _ c1; EvSet _ _ _ _ c2], _) =>
+      (map fst c1, map fst c2) = ([y1; z2], [y1; x1]) /\ map (fun kv => l_id (snd (snd kv))) c2 = [0; 2001]
+  | _ => False
+  end.
+Proof. vm_compute. repeat split; reflexivity. Qed.
